@@ -326,6 +326,85 @@ class CtxRecorder:
                 hl=hl, tl=tl, extra=extra, undirected=undirected)
 
 
+    # ------------------------------------------------------------------ C15
+    def _lat_obs(self, ctx, omap, pmap, pairs_of):
+        """Observation of a lattice in a given coordinate system (label -> position maps)."""
+        alg = sys.modules[self.C.__name__ + '.algorithms']
+        L = ctx.lattice
+        ms = list(L)
+
+        def O(labels):
+            return [omap.get(x, -1) for x in labels]
+
+        def P(labels):
+            return [pmap.get(x, -1) for x in labels]
+        c = [[O(x.extent), P(x.intent)] for x in ms]
+        cov = [[O(lo.extent), O(up.extent), P(lo.intent), P(up.intent)] for up in ms for lo in up.lower_neighbors]
+        jm = []
+        for a, b in pairs_of(L, ms):
+            j, mt = a | b, a & b
+            jm.append([O(a.extent), O(b.extent), O(j.extent), O(mt.extent),
+                       P(a.intent), P(b.intent), P(j.intent), P(mt.intent)])
+        rel = [[r.kind, pmap.get(r.left, -1), pmap.get(r.right, -1)] for r in ctx.relations()]
+        g1 = [[O(x.members()), P(i.members())] for x, i in alg.fast_generate_from(ctx)]
+        g2 = [[O(x.members()), P(i.members())] for x, i in alg.fcbo_dual(ctx)]
+        return c, cov, jm, rel, g1, g2
+
+    def rel(self, kind, rng, i=None, j=None):
+        C = self.C
+        n, m = self.table.n, self.table.m
+        d = self.ctx.definition()
+        params = {}
+        omap, pmap = dict(self.opos), dict(self.ppos)
+        if kind == 'perm':
+            ol, pl = list(self.olabels), list(self.plabels)
+            rng.shuffle(ol)
+            rng.shuffle(pl)
+            d2 = d.take(objects=ol, properties=pl, reorder=True)
+            params = {'pi': [self.opos[x] for x in ol], 'rho': [self.ppos[x] for x in pl]}
+        elif kind == 'transpose':
+            d2 = d.transposed()
+            omap, pmap = dict(self.ppos), dict(self.opos)
+        elif kind == 'duprow':
+            d2 = d.copy()
+            d2.add_object('NEWOBJ', [p for p, v in zip(self.plabels, self.ctx.bools[i - 1]) if v])
+            omap['NEWOBJ'] = n + 1
+            params = {'i': i}
+        elif kind == 'dupcol':
+            d2 = d.copy()
+            d2.add_property('NEWPROP', [o for o, row in zip(self.olabels, self.ctx.bools) if row[j - 1]])
+            pmap['NEWPROP'] = m + 1
+            params = {'j': j}
+        else:
+            d2 = d.copy()
+            d2.add_property('NEWPROP', list(self.olabels))
+            pmap['NEWPROP'] = m + 1
+        ctx2 = C.Context(*d2)
+        # the same label-level pairs in both lattices
+        ms1 = list(self.ctx.lattice)
+        N = len(ms1)
+        idx = [(a, b) for a in range(N) for b in range(N)]
+        if len(idx) > 49:
+            idx = rng.sample(idx, 49)
+
+        def pairs1(L, ms):
+            return [(ms[a], ms[b]) for a, b in idx]
+
+        def pairs2(L, ms):
+            if kind == 'perm':
+                return [(L(ms1[a].intent), L(ms1[b].intent)) for a, b in idx]
+            if kind == 'transpose':     # the dual concept has the old extent as its intent
+                return [(L(ms1[a].extent), L(ms1[b].extent)) for a, b in idx]
+            return []
+        c1, cov1, jm1, rel1, g1, _ = self._lat_obs(self.ctx, self.opos, self.ppos, pairs1)
+        c2, cov2, jm2, rel2, g2a, g2b = self._lat_obs(ctx2, omap, pmap, pairs2)
+        o2 = {x: k + 1 for k, x in enumerate(ctx2.objects)}
+        t2 = {'n': len(ctx2.objects), 'm': len(ctx2.properties),
+              'rows': [[k + 1 for k, v in enumerate(row) if v] for row in ctx2.bools]}
+        self.ev('rel', kind=kind, t2=t2, c1=c1, c2=c2, cov1=cov1, cov2=cov2, jm1=jm1, jm2=jm2, rel1=rel1, rel2=rel2,
+                g2a=g2a, g2b=g2b, **params)
+
+
 # -------------------------------------------------------------------- plans
 def subsets_all(n):
     for r in range(n + 1):
@@ -374,7 +453,7 @@ def drive(rec, table, b, families, rng, exhaustive_queries, nsub=10, nmulti=12, 
         import corpus
         osubs = corpus.wide_subsets(n, rng) if n > 20 else sample_subsets(n, nsub, rng)
         psubs = corpus.wide_subsets(m, rng) if m > 20 else sample_subsets(m, nsub, rng)
-    lattice_fams = {'C02L', 'C03', 'C05', 'C06', 'C07', 'C08', 'C09', 'C10', 'C18', 'C20'}
+    lattice_fams = {'C02L', 'C03', 'C05', 'C06', 'C07', 'C08', 'C09', 'C10', 'C15', 'C18', 'C20'}
     if table.tag.startswith(('widecontra', 'wideanti', 'widerand')):
         families = families - lattice_fams - {'C04', 'C05'}      # astronomically many concepts: derivations only
     if families & lattice_fams:
@@ -464,6 +543,16 @@ def drive(rec, table, b, families, rng, exhaustive_queries, nsub=10, nmulti=12, 
             T(rec.traverse, 'downset_union', idxs)
     if 'C10' in families:
         T(rec.lat_labels)
+    if 'C15' in families:
+        nperm = 3 if n * m <= 12 else 2
+        for _ in range(nperm):
+            T(rec.rel, 'perm', rng)
+        T(rec.rel, 'transpose', rng)
+        for i in (range(1, n + 1) if n <= 4 else rng.sample(range(1, n + 1), 3)):
+            T(rec.rel, 'duprow', rng, i=i)
+        for j in (range(1, m + 1) if m <= 4 else rng.sample(range(1, m + 1), 3)):
+            T(rec.rel, 'dupcol', rng, j=j)
+        T(rec.rel, 'fullcol', rng)
     if 'C16' in families:
         T(rec.relations)
     if 'C18' in families:
